@@ -452,7 +452,7 @@ class C16(Prop):
     props_file = 'Props/C16.v'
     imports = ['Model.StaticPath', 'Model.Ranges', 'Model.StaticObs']
     quick_n = 1200
-    thorough_n = 16000
+    thorough_n = 40000
     rule = ('request paths of up to 6 segments over hostile ("..", ".", "", %2e%2e, %252e%252e, ..%2f, backslash, %00, '
             'overlong UTF-8 ...) and benign (names inside / beside / above the root) segments, decoded-absolute paths, '
             'two docroot layouts with name-extending siblings and secrets in parent and grand-parent, mounted at None, '
@@ -479,6 +479,13 @@ class C16(Prop):
     def generate(self, rng, n, tier):
         cases = []
         big = 0
+        if tier == 'thorough':     # small scope, exhaustive: every path of <= 3 segments over a reduced alphabet
+            import itertools
+            alpha = ['..', '.', '', '%2e%2e', 'sub', 'a.txt', 'root-extra', 'secret.txt', 'root', '%2f', 'idx', 's.txt']
+            for k in range(4):
+                for segs in itertools.product(alpha, repeat=k):
+                    cases.append({'k': 'path', 'lay': 'L0', 'mount': None, 'mode': 'direct',
+                                  'path': '/' + '/'.join(segs), 'listing': k % 2 == 0})
         for i in range(n):
             r = rng.random()
             if r < 0.55:
